@@ -159,6 +159,13 @@ def run_dbg(ctx):
     return l1_both(ctx, miri_shards=MIRI_SHARDS.get(ctx.pid, 0))
 
 
+def run_c12(ctx):
+    import l2
+    res = run_dbg(ctx)
+    l2.c12_cli(ctx, res)
+    return res
+
+
 def run_c11(ctx):
     import l2
     res = run_dbg(ctx)
@@ -231,10 +238,10 @@ PROPS = {
         "assumptions": DBG_ASSUME,
     },
     "C12": {
-        "run": run_dbg,
+        "run": run_c12,
         "level": "exploration",
         "design_ref": "DESIGN.md section 4 C12",
-        "level_text": "Runtime monitor over histories of executing and mutating commands (move to registers/code/stack area, goto, eval of stores below the origin and into code, program stores) followed by 1-3 resets: the snapshot at the prompt after every reset must equal the load-time machine (all registers, PC, CC, all 65,536 words, taken from the reference loader, not from the debugger's saved copy), and `...; reset; quit` must end like a fresh run (output suffix, exit, final state).",
+        "level_text": "Runtime monitor over histories of executing and mutating commands (move to registers/code/stack area, goto, eval of stores below the origin and into code, program stores) followed by 1-3 resets: the snapshot at the prompt after every reset must equal the load-time machine (all registers, PC, CC, all 65,536 words, taken from the reference loader, not from the debugger's saved copy), and `...; reset; quit` must end like a fresh run (output suffix, exit, final state). Plus a CLI layer: `reset` as the last command of a script, through every reader and separator, on a program that prints how often it has run.",
         "level_note": "Programs with input traps are excluded (input consumed before the reset cannot be replayed).",
         "technique": "runtime monitoring: state-equality invariant at hooked prompts + differential final-state check",
         "rule": "case = (program, mutating history, resets, quit/exit); non-trivial = the machine differed from its load-time state right before a reset; distinct = hash of source and script",
